@@ -325,7 +325,7 @@ func init() {
 			})
 		sc := &engine.Scenario{
 			Name: "C05-cache", Cfgs: cfgs([]int{1}, []int{0}, one, u), Filters: relFilters(), Slots: 2,
-			Oracle:   drv.Oracle{World: true, Filters: true, Lock: true, Stats: true},
+			Oracle: drv.Oracle{World: true, Filters: true, Lock: true, Stats: true},
 			Preludes: append(relPreludes(model.PathMapN)[1:], []model.Op{
 				{K: model.OpNew, Path: model.PathMapN, Cs: ct.Of(ct.P)}, {K: model.OpNew, Path: model.PathMapN, Cs: ct.Of(ct.P, ct.R1), T: rel(ct.R1, 0)},
 				{K: model.OpNew, Path: model.PathMapN, Cs: ct.Of(ct.R1), T: rel(ct.R1, 0)},
@@ -345,15 +345,15 @@ func init() {
 		}
 		u := []ct.Comp{ct.P, ct.Q, ct.R1, ct.T9, ct.R2, ct.S}
 		filters := []model.FilterSpec{
-			{Params: []ct.Comp{ct.P}},                                   // f0
-			{Params: []ct.Comp{ct.P, ct.Q}},                             // f1
-			{Params: []ct.Comp{ct.P}, Without: ct.Of(ct.Q)},             // f2
-			{Params: []ct.Comp{ct.R1}},                                  // f3
-			{Params: []ct.Comp{ct.P}, Without: ct.Of(ct.R1)},            // f4
+			{Params: []ct.Comp{ct.P}},                                      // f0
+			{Params: []ct.Comp{ct.P, ct.Q}},                                // f1
+			{Params: []ct.Comp{ct.P}, Without: ct.Of(ct.Q)},                // f2
+			{Params: []ct.Comp{ct.R1}},                                     // f3
+			{Params: []ct.Comp{ct.P}, Without: ct.Of(ct.R1)},               // f4
 			{Params: []ct.Comp{ct.P}, Without: ct.Of(ct.Q) | ct.Of(ct.R1)}, // f5
-			{Params: []ct.Comp{ct.R1, ct.R2}, Rels: rel(ct.R1, 0)},          // f6: fixed target, second relation open
-			{Params: []ct.Comp{ct.S}},                                       // f7
-			{Params: []ct.Comp{ct.S}, Without: ct.Of(ct.Q)},                 // f8
+			{Params: []ct.Comp{ct.R1, ct.R2}, Rels: rel(ct.R1, 0)},         // f6: fixed target, second relation open
+			{Params: []ct.Comp{ct.S}},                                      // f7
+			{Params: []ct.Comp{ct.S}, Without: ct.Of(ct.Q)},                // f8
 		}
 		alpha := func(reg bool) func(m *model.Model) []model.Op {
 			return func(m *model.Model) []model.Op {
